@@ -28,6 +28,7 @@ import (
 	"github.com/LiskHQ/lisk-engine/pkg/p2p"
 	"github.com/LiskHQ/lisk-engine/pkg/trie/rmt"
 
+	"verif/nolog"
 	"verif/ref"
 )
 
@@ -421,13 +422,7 @@ var sharedCache = pebble.NewCache(8 << 20)
 // processStart fixes "now" once per process so that every node built in one run shares its genesis.
 var processStart = uint32(time.Now().Unix())
 
-func init() {
-	l, err := log.NewSilentLogger()
-	if err != nil {
-		panic(err)
-	}
-	silent = l
-}
+func init() { silent = nolog.L{} }
 
 func (c *Config) genesisTimestamp() uint32 {
 	if c.GenesisTimeFix != 0 {
